@@ -59,6 +59,8 @@ var toolSources = map[string][2]string{
 	"inblock":     {"##!> assemble\na(\n##!<\n", "##!> assemble\n  a(\n##!<\n"},
 	"ininclude":   {"##!> include bad\n", "##!> include bad\n"},
 	"badflagU":    {"##!+ U\ns\n", "##!+ U\ns\n"},
+	// upper case in a class under flag i: `format --check' objects, everything else accepts it
+	"upperi": {"##!+i\n [Ff]oo\n", "##!+ i\n[Ff]oo\n"},
 	// the same exclude file applied to two include files that define {{v}} differently
 	"exA": {"##!>  include-except incA xshared\n", "##!> include-except incA xshared\n"},
 	"exB": {"##!>  include-except incB xshared\n", "##!> include-except incB xshared\n"},
@@ -110,23 +112,27 @@ func (e *toolEnv) rulesText(t *toolTree) string {
 
 func (e *toolEnv) concrete(t *toolTree) Tree {
 	tr := Tree{
-		"crs/regex-assembly/include/words.ra":               fmtHeader + "w1\nw2\n",
-		"crs/regex-assembly/include/bad.ra":                 fmtHeader + "a(\n",
-		"crs/regex-assembly/include/incA.ra":                fmtHeader + "##!> define v ka\n{{v}}\nqa\n",
-		"crs/regex-assembly/include/incB.ra":                fmtHeader + "##!> define v kb\n{{v}}\nqb\n",
-		"crs/regex-assembly/exclude/xshared.ra":             fmtHeader + "{{v}}\n",
-		"crs/regex-assembly/notes.md":                       "##!> assemble\n  not an assembly file\n",
-		"crs/regex-assembly/932100.ra.orig":                 "   stale  \n",
+		"crs/regex-assembly/include/words.ra":   fmtHeader + "w1\nw2\n",
+		"crs/regex-assembly/include/bad.ra":     fmtHeader + "a(\n",
+		"crs/regex-assembly/include/incA.ra":    fmtHeader + "##!> define v ka\n{{v}}\nqa\n",
+		"crs/regex-assembly/include/incB.ra":    fmtHeader + "##!> define v kb\n{{v}}\nqb\n",
+		"crs/regex-assembly/exclude/xshared.ra": fmtHeader + "{{v}}\n",
+		"crs/regex-assembly/notes.md":           "##!> assemble\n  not an assembly file\n",
+		"crs/regex-assembly/932100.ra.orig":     "   stale  \n",
+		// not the assembly file of a rule (and already in canonical layout): sorts between 932100-chain1.ra and 932100.ra
+		"crs/regex-assembly/932100-draft.ra":                fmtHeader + "draft\n",
 		"crs/README.md":                                     "# OWASP CRS ver.4.0.0\nSecComponentSignature \"OWASP_CRS/4.0.0\"\n",
 		"crs/rules/notes.txt":                               "id:932100 \"@rx decoy\" \\\n",
 		"crs/rules/REQUEST-933-OTHER.conf.bak":              "SecRule ARGS \"@rx keep\" \\\n    \"id:933100,\\\n    ver:'OWASP_CRS/4.0.0'\"\n",
 		"crs/rules/REQUEST-933-APPLICATION-ATTACK-PHP.conf": "SecRule ARGS \"@rx keep\" \\\n    \"id:933100,\\\n    block\"\n",
 		filepath.Dir("crs/"+toolTestPath) + "/932100":       "  - test_id: 5\n",
 		filepath.Dir("crs/"+toolTestPath) + "/notes.md":     "  - test_id: 5\n",
-		"crs/tests/regression/README.yaml.txt":              "test_id: 3\n",
-		"outside/keep.conf":                                 "SecComponentSignature \"OWASP_CRS/4.0.0\"\n",
-		"outside/932100.ra":                                 "   outside  \n",
-		"crs/" + toolSetupPath:                              "# setup\nSecComponentSignature \"OWASP_CRS/" + t.Marks + "\"\n",
+		// a parked test file: the only match of the glob 932110.*, and not a fix point of the renumberer
+		filepath.Dir("crs/"+toolTestPath) + "/932110.yaml.disabled": "tests:\n  - test_id: 4\n  - test_id: 4\n\n\n",
+		"crs/tests/regression/README.yaml.txt":                      "test_id: 3\n",
+		"outside/keep.conf":                                         "SecComponentSignature \"OWASP_CRS/4.0.0\"\n",
+		"outside/932100.ra":                                         "   outside  \n",
+		"crs/" + toolSetupPath:                                      "# setup\nSecComponentSignature \"OWASP_CRS/" + t.Marks + "\"\n",
 	}
 	for _, f := range toolFiles {
 		s := t.Src[f]
@@ -175,6 +181,10 @@ func toolArgs(cmd []any) []string {
 		return []string{"regex", "format", "--check", "--all"}
 	case "renumber-check":
 		return []string{"util", "renumber-tests", "--check", "--all"}
+	case "version":
+		return []string{"version"}
+	case "completion":
+		return []string{"completion", str(1)}
 	case "update":
 		return []string{"regex", "update", str(1)}
 	case "update-all":
@@ -185,6 +195,11 @@ func toolArgs(cmd []any) []string {
 		return []string{"regex", "format", "--all"}
 	case "renumber":
 		return []string{"util", "renumber-tests", "--all"}
+	case "renumber-one":
+		if b, _ := cmd[3].(bool); b {
+			return []string{"util", "renumber-tests", "--check", str(1)}
+		}
+		return []string{"util", "renumber-tests", str(1)}
 	case "copyright":
 		return []string{"chore", "update-copyright", "-v", str(1), "-y", "2024"}
 	}
@@ -207,7 +222,7 @@ func checkToolchain(c *Ctx, prop string) error {
 	writeTree(cal, Tree{"regex-assembly/include/words.ra": fmtHeader + "w1\nw2\n", "regex-assembly/include/bad.ra": fmtHeader + "a(\n",
 		"regex-assembly/include/incA.ra": fmtHeader + "##!> define v ka\n{{v}}\nqa\n", "regex-assembly/include/incB.ra": fmtHeader + "##!> define v kb\n{{v}}\nqb\n",
 		"regex-assembly/exclude/xshared.ra": fmtHeader + "{{v}}\n"})
-	for _, s := range []string{"store", "define", "refonly", "flagsprefix", "plain", "incl", "exA", "exB", "incpairs"} {
+	for _, s := range []string{"store", "define", "refonly", "flagsprefix", "plain", "incl", "exA", "exB", "incpairs", "upperi"} {
 		r := c.runCLI(cal, toolRaw(s), "-d", cal, "regex", "generate", "-")
 		if r.Exit != 0 || r.Stdout == "" {
 			c.violation("toolchain", map[string]any{"why": "a well-formed program of the pool does not compile on its own", "program": toolRaw(s), "stderr": lastLine(r.Stderr)})
@@ -229,7 +244,7 @@ func checkToolchain(c *Ctx, prop string) error {
 		return true
 	}
 	st, err := c.runTLC(TLCRun{Module: "MC_Toolchain", Seed: c.Seed, Timeout: 30 * time.Minute,
-		Constants: map[string]string{"Files": "<- MCFiles", "Sources": "<- MCSources", "Compiles": "<- MCCompiles", "Formats": "<- MCFormats", "FmtAborts": "<- MCFmtAborts", "Export": "= TRUE", "MaxEdits": "= 1", "Full": "= " + tlaBool(c.Tier == "thorough")},
+		Constants: map[string]string{"Files": "<- MCFiles", "Sources": "<- MCSources", "Compiles": "<- MCCompiles", "Formats": "<- MCFormats", "Lints": "<- MCLints", "FmtAborts": "<- MCFmtAborts", "Export": "= TRUE", "MaxEdits": "= 1", "Full": "= " + tlaBool(c.Tier == "thorough")},
 		Invs:      []string{"FrameOK", "LoudOK", "RoundTripOK", "AllIsSingles", "ExportCase"}}, func(raw []byte) error {
 		n := atomic.AddInt64(&enumerated, 1)
 		// cheap pre-filter by hash before decoding
@@ -314,7 +329,7 @@ func checkToolchain(c *Ctx, prop string) error {
 	c.Cov["per_command"] = perCmd
 	c.Cov["cli_executions"] = cli
 	c.Cov["exhaustive"] = false
-	c.Cov["rule"] = "TLC explores every transition (tree before, command, tree after, exit, components written) of Toolchain.tla from 144 (quick) / 396 (thorough) initial trees (8 / 22 assignments of 21 program shapes incl. one per fault class of C16 at top level / in a block / in an include to 3 assembly files - shared stash names, definitions, flags/prefix only in one file, include-only, a failing file in the middle, a chain offset - x formatted or not x rule present or missing x one / no / two rules files) closed under one environment edit, for 14 commands incl. every --all variant and github mode, and checks FrameOK, LoudOK, RoundTripOK and AllIsSingles on each; a stratified sample of the transitions is executed on a concrete tree with decoy files (other extensions, look-alike names, nested directories, a sibling directory outside the root): exit status, abstract tree after (read back from the bytes) and the set of changed paths must be what the model says. " +
+	c.Cov["rule"] = "TLC explores every transition (tree before, command, tree after, exit, components written) of Toolchain.tla from 144 (quick) / 378 (thorough) initial trees (8 / 21 assignments of 22 program shapes incl. one per fault class of C16 at top level / in a block / in an include to 3 assembly files - shared stash names, definitions, flags/prefix only in one file, include-only, a failing file in the middle, a chain offset - x formatted or not x rule present or missing x one / no / two rules files) closed under one environment edit, for 21 commands incl. version, completion and the single-target renumber-tests (test file, parked look-alike, no match; with and without --check), every --all variant and github mode, and checks FrameOK, LoudOK, RoundTripOK and AllIsSingles on each; a stratified sample of the transitions is executed on a concrete tree with decoy files (other extensions, look-alike names, nested directories, a sibling directory outside the root): exit status, abstract tree after (read back from the bytes) and the set of changed paths must be what the model says. " +
 		map[string]string{"C08": "C08 sample: --all commands and the single commands they must equal; non-trivial = an --all command on a tree with >= 2 assembly files.",
 			"C15": "C15 sample: all commands; every transition is non-trivial (the whole tree incl. decoys is snapshotted).",
 			"C16": "C16 sample: transitions the model ends with exit 1 and every generate; non-trivial = the model says the command must fail."}[prop]
@@ -347,7 +362,7 @@ func toolReplay(c *Ctx, env *toolEnv, name string, tc *toolCase, cli *int64) {
 		c.violation("toolchain", d)
 	}
 	// exit status
-	if (r.Exit == 0) != (tc.Exit == 0) || r.TimedOut {
+	if (tc.Exit != 2 && (r.Exit == 0) != (tc.Exit == 0)) || r.TimedOut { // 2: the model leaves the status open
 		bad(fmt.Sprintf("exit status %d, the model says %d", r.Exit, tc.Exit), nil)
 	}
 	if tc.Cmd[0] == "generate" {
